@@ -6,10 +6,12 @@ import (
 	"fmt"
 	"net"
 	"net/netip"
+	"os"
 	"strings"
 	"testing"
 	"time"
 
+	"github.com/uhppoted/uhppote-core/types"
 	"pgregory.net/rapid"
 
 	"verif/harness/api"
@@ -45,7 +47,22 @@ type routeCase struct {
 	BindBusy bool `json:"bind_busy,omitempty"`
 	// socket layer: the fixed bind port has the same NUMBER as the broadcast port (on another local address)
 	BindEqBroadcast bool `json:"bind_port_equals_broadcast_port,omitempty"`
+	// socket layer: the client's event listener is running and has just heard an event FROM THE ADDRESSED CONTROLLER'S SERIAL
+	// NUMBER sent by a host that is not the configured endpoint (a decoy on another address, same port number as the broadcast
+	// port): what the listener hears never changes where requests go
+	ListenEvent bool `json:"listen_event,omitempty"`
 }
+
+type nullListener struct{ heard chan struct{} }
+
+func (l nullListener) OnConnected() {}
+func (l nullListener) OnEvent(*types.Status) {
+	select {
+	case l.heard <- struct{}{}:
+	default:
+	}
+}
+func (l nullListener) OnError(error) bool { return true }
 
 func kinds(c routeCase) (map[string]bool, bool) {
 	k := map[string]bool{}
@@ -269,6 +286,11 @@ func runSocket(c routeCase) (fail *rp.Fail, skipped bool) {
 		defer hu.Close()
 		defer ht.Close()
 	}
+	if c.ListenEvent && cfg.HasBroadcast {
+		if lp, err := farm.FreePort([4]byte{127, 0, 0, 1}); err == nil {
+			cfg.HasListen, cfg.ListenIP, cfg.ListenPort = true, [4]byte{127, 0, 0, 1}, lp
+		}
+	}
 	refused := ""
 	if c.Behaviour == 3 {
 		if m, _ := cfg.Route(c.Call.Call.Serial, c.Call.Call.Op == "GetDevices"); m == "SendUDP" || m == "SendTCP" {
@@ -278,6 +300,45 @@ func runSocket(c routeCase) (fail *rp.Fail, skipped bool) {
 		}
 	}
 	u := hook.Real(cfg)
+	if cfg.HasListen && c.ListenEvent {
+		// a decoy on another address with the broadcast port's NUMBER sends the event
+		if decoy, err := f.UDP([4]byte{127, 0, 3, 9}, cfg.BroadcastPort, nil); err == nil {
+			endpoints["event-source"] = pair{udp: decoy}
+			names = append(names, "event-source")
+			l := nullListener{heard: make(chan struct{}, 1)}
+			q := make(chan os.Signal, 1)
+			done := make(chan struct{})
+			go func() {
+				defer close(done)
+				defer func() { recover() }()
+				u.Listen(l, q)
+			}()
+			e := make([]byte, 64)
+			spec.Header(e, 0x17, 0x20, c.Call.Call.Serial)
+			if c.Call.Call.Serial == 0 {
+				spec.PutLE32(e[4:], 405419896)
+			}
+			spec.PutLE32(e[8:], 7)
+			e[12] = 1
+			to := netip.AddrPortFrom(netip.AddrFrom4(cfg.ListenIP), cfg.ListenPort)
+			for try := 0; try < 60; try++ {
+				decoy.Send(to, e)
+				select {
+				case <-l.heard:
+					try = 1000
+				case <-time.After(10 * time.Millisecond):
+				}
+			}
+			defer func() {
+				q <- os.Interrupt
+				select {
+				case <-done:
+				case <-time.After(3 * time.Second):
+				}
+			}()
+			ev.Class("socket/listener-heard-an-event-for-the-controller-from-elsewhere", 1)
+		}
+	}
 	cs := c.Call
 	res, discovery := invoke(c, func(cs api.Case) api.Result { return api.Invoke(u, cs) }, func() error { _, err := u.GetDevices(); return err })
 	_ = cs
@@ -424,6 +485,29 @@ func check(c routeCase) *rp.Fail {
 	return f
 }
 
+// hostIPs: the IPv4 addresses of this host's interfaces that are up (loopback excluded)
+func hostIPs() [][4]byte {
+	var out [][4]byte
+	ifs, err := net.Interfaces()
+	if err != nil {
+		return nil
+	}
+	for _, i := range ifs {
+		if i.Flags&net.FlagUp == 0 || i.Flags&net.FlagLoopback != 0 {
+			continue
+		}
+		addrs, _ := i.Addrs()
+		for _, a := range addrs {
+			if n, ok := a.(*net.IPNet); ok {
+				if v4 := n.IP.To4(); v4 != nil {
+					out = append(out, [4]byte{v4[0], v4[1], v4[2], v4[3]})
+				}
+			}
+		}
+	}
+	return out
+}
+
 func genCase(layer string) func(t *rapid.T) routeCase {
 	return func(t *rapid.T) routeCase {
 		c := routeCase{Layer: layer, Decoys: rapid.IntRange(0, 2).Draw(t, "decoys")}
@@ -444,6 +528,10 @@ func genCase(layer string) func(t *rapid.T) routeCase {
 		c.Cfg.Debug = gen.Debug(t, "debug")
 		if rapid.Bool().Draw(t, "bind.specific") {
 			c.Cfg.BindIP = [4]byte{127, 0, 0, byte(rapid.IntRange(1, 9).Draw(t, "bind.ip"))}
+			if ips := hostIPs(); layer == "hook" && len(ips) > 0 && rapid.IntRange(0, 3).Draw(t, "bind.host") == 0 {
+				// the address of one of this host's real network interfaces (nothing is sent at the hook layer)
+				c.Cfg.BindIP = ips[rapid.IntRange(0, len(ips)-1).Draw(t, "bind.host.ip")]
+			}
 		}
 		if rapid.IntRange(0, 2).Draw(t, "bind.fixed") == 0 {
 			c.Cfg.BindPort = uint16(rapid.IntRange(1024, 59999).Draw(t, "bind.port"))
@@ -516,6 +604,9 @@ func genCase(layer string) func(t *rapid.T) routeCase {
 		if layer == "socket" && c.Cfg.BindPort != 0 && c.Cfg.BindIP != [4]byte{} {
 			c.BindBusy = rapid.IntRange(0, 3).Draw(t, "bind.busy") == 0
 			c.BindEqBroadcast = !c.BindBusy && rapid.IntRange(0, 2).Draw(t, "bind.eq.broadcast") == 0
+		}
+		if layer == "socket" && c.Cfg.HasBroadcast {
+			c.ListenEvent = rapid.IntRange(0, 3).Draw(t, "listen.event") == 0
 		}
 		if layer == "socket" && op == "SetTime" {
 			c.Call.V.TimeLoc = "" // keep the socket-layer requests independent of zone data
